@@ -14,7 +14,9 @@ def run_batches(scenarios, exes, workdir, batch=40, module="CatTrace", keep=Fals
         byk.setdefault(s.qcap, []).append(s)
 
     def weight(s):
-        return 5 + sum(40 if l.startswith("roundtrip") else 3 if l.startswith("settle") else 1 for l in s.lines)
+        base = 5 + sum(40 if l.startswith("roundtrip") else 3 if l.startswith("settle") else 1 for l in s.lines)
+        n = len(s.cmds())
+        return base * (1 + n * n / 150.0)        # TLC's cost per service step grows with the table size
 
     total = sum(weight(s) for s in scenarios) or 1
     target = max(total / (2.0 * NCPU), 60)
